@@ -15,7 +15,9 @@ WIDTH = {'arm': 32, 't16': 16, 't32': 32}
 def also_families(cls, family):
     """'+'-joined properties a row's functional obligations belong to.  Single-register loads and stores are C02; their byte
     footprint, endianness and alignment handling is what C13 states at instruction level; the unprivileged forms (LDRT, STRT,
-    LDRBT, ...) carry the last clause of C19; rows naming a mode or bank explicitly carry C10 through post.banks anyway."""
+    LDRBT, ...) carry the last clause of C19; the ARM forms of SUBS PC, LR are the data-processing encodings with S = 1 and
+    Rd = PC ("the special rules when the destination is the PC" of C01); rows naming a mode or bank explicitly carry C10
+    through post.banks anyway."""
     import re
     if not family:
         return family
@@ -25,6 +27,8 @@ def also_families(cls, family):
             fs.append('C13')
         if re.match(r'(Ldr|Str)(b|h|sb|sh)?t[A-Z]', cls) and 'C19' not in fs:
             fs.append('C19')
+    if cls.startswith('SubsPcLrArm') and 'C01' not in fs:
+        fs.append('C01')
     return '+'.join(fs)
 
 
